@@ -64,6 +64,10 @@ M = [
  ('B-describe-format', [], [('src/cbor.c', '      fprintf(out, "Value: %" PRIu64 "\\n", cbor_get_int(item));\n      break;\n    }\n    case CBOR_TYPE_NEGINT: {', '      fprintf(out, "Value = %" PRIu64 "\\n", cbor_get_int(item));\n      break;\n    }\n    case CBOR_TYPE_NEGINT: {')]),
  ('B-map-zero-init', [], [(S+'maps.c', "  _CBOR_DEPENDENT_NOTNULL(item, item->data);\n\n  return item;\n}\n\ncbor_item_t* cbor_new_indefinite_map", "  _CBOR_DEPENDENT_NOTNULL(item, item->data);\n  for (size_t i = 0; i < size; i++) ((struct cbor_pair*)item->data)[i] = (struct cbor_pair){NULL, NULL};\n\n  return item;\n}\n\ncbor_item_t* cbor_new_indefinite_map")]),
  ('B-stack-alloc-first', [], [(S+'internal/stack.c', "  if (stack->size == CBOR_MAX_STACK_SIZE) return NULL;\n  struct _cbor_stack_record* new_top =\n      _cbor_malloc(sizeof(struct _cbor_stack_record));\n  if (new_top == NULL) return NULL;", "  struct _cbor_stack_record* new_top =\n      _cbor_malloc(sizeof(struct _cbor_stack_record));\n  if (new_top == NULL) return NULL;\n  if (stack->size == CBOR_MAX_STACK_SIZE) {\n    _cbor_free(new_top);\n    return NULL;\n  }")]),
+ ('B-indef-prealloc4', [], [(S+'arrays.c', "      .metadata = {.array_metadata = {.type = _CBOR_METADATA_INDEFINITE,\n                                      .allocated = 0,\n                                      .end_ptr = 0}},\n      .data = NULL /* Can be safely realloc-ed */\n  };\n  return item;", "      .metadata = {.array_metadata = {.type = _CBOR_METADATA_INDEFINITE,\n                                      .allocated = 0,\n                                      .end_ptr = 0}},\n      .data = NULL /* Can be safely realloc-ed */\n  };\n  item->data = _cbor_alloc_multiple(sizeof(cbor_item_t*), 4);\n  if (item->data == NULL) {\n    _cbor_free(item);\n    return NULL;\n  }\n  item->metadata.array_metadata.allocated = 4;\n  return item;")]),
+ ('B-copy-keep-capacity', [], [('src/cbor.c', "        res = cbor_new_definite_array(cbor_array_size(item));", "        res = cbor_new_definite_array(cbor_array_allocated(item));")]),
+ ('B-serialize-size-first', [], [(S+'serialization.c', "size_t cbor_serialize(const cbor_item_t* item, unsigned char* buffer,\n                      size_t buffer_size) {\n  switch (cbor_typeof(item)) {", "size_t cbor_serialize(const cbor_item_t* item, unsigned char* buffer,\n                      size_t buffer_size) {\n  if (buffer_size == 0) return 0;\n  switch (cbor_typeof(item)) {")]),
+ ('B-eager-depth-check', [], [(S+'internal/builder_callbacks.c', "void cbor_builder_tag_callback(void* context, uint64_t value) {\n  struct _cbor_decoder_context* ctx = context;\n  cbor_item_t* res = cbor_new_tag(value);", "void cbor_builder_tag_callback(void* context, uint64_t value) {\n  struct _cbor_decoder_context* ctx = context;\n  if (ctx->stack->size >= CBOR_MAX_STACK_SIZE) {\n    ctx->creation_failed = true;\n    return;\n  }\n  cbor_item_t* res = cbor_new_tag(value);")]),
 ]
 
 def gen():
